@@ -55,9 +55,10 @@ def run(rep, facts):
     rep.rule("O1", "VarInt::MAX == 2^31-1 and LONG_BIT == 0x80")
     rep.rule("O2", "TryFrom<u32>: Err(InvalidVarInt) exactly on the true edge of v > MAX, else VarInt(v); TryFrom<usize> = u32::try_from then the same")
     rep.rule("O3", "VarInt(..) is constructed only at: const MAX, Default, From<u8>, From<u16>, the guarded TryFrom<u32>, and read() after clearing LONG_BIT")
-    rep.rule("O4", "read and write use the same LONG_BIT constant for the long-form test / set / clear; short form exactly below LONG_BIT; to_be_bytes <-> from_be_bytes")
-    rep.rule("O5", "read uses only read_exact: 1 byte, then the remaining 3 of a 4-byte buffer (truncation => UnexpectedEof from read_exact)")
-    rep.rule("O6", "write returns the length of exactly the array handed to write_all")
+    rep.rule("O4", "read and write implement the two forms on every path, decided cell by cell (E9): decoder in[0] & LONG_BIT == 0 => VarInt(in[0]) after 1 byte, "
+                   "else VarInt(from_be_bytes[in[0] & !LONG_BIT, in[1..4]]) after 4; encoder self.0 < LONG_BIT => [self.0 as u8], else be(self.0) with LONG_BIT set in byte 0")
+    rep.rule("O5", "read touches the reader only through read_exact (truncation => UnexpectedEof from read_exact), and reports an error only when a read failed")
+    rep.rule("O6", "write returns Ok(n) only after every write_all succeeded, with n the number of bytes handed to write_all")
 
     # ---- O1 -------------------------------------------------------------------------------------------
     mx = facts.const_int(MAXC)
@@ -175,156 +176,136 @@ def run(rep, facts):
             if e[0] != 'param':
                 rep.violation("O3", "widening[%s]" % bb.path, "From<small int> stores %s" % ir.show(e), bb.loc())
 
-    # ---- O4 / O5: read ---------------------------------------------------------------------------------
-    b, rows = rows_of(facts, "protocol::varint::VarInt::read")
-    ok_rows = [r for r in rows if r.end == 'return' and r.ret is not None]
-    io_calls = set()
-    short = long_ = None
-    for r in ok_rows:
-        for (nm, args, n) in r.calls:
-            if nm.startswith("std::io::Read::") or nm.startswith("std::io::BufRead::"):
-                io_calls.add(nm)
-        if variant_of(r.ret) != 'Ok':
-            continue
-        val = ir.peel(agg_field(r.ret, 0))
-        tests = [(ir.peel(e), lab) for (e, lab) in nonconst_conds(r)
-                 if ir.peel(e)[0] == 'bin' and ir.peel(e)[1] in ('Eq', 'Ne') and mentions_const(e, LONG)]
-        if len(tests) != 1:
-            continue
-        te, lab = tests[0]
-        band = ir.peel(te[2])
-        zero = cv(te[3]) == 0
+    # ---- O4 / O5 / O6: the byte-level bodies, decided cell by cell (engine E9, cells.py) --------------------------
+    run_codec(rep, facts)
 
-        def window(e):
-            """(start, end) of a view into the 4-byte scratch array: buf[..1], buf[1..], split_at_mut(buf, 1).0/.1, buf itself"""
-            e = ir.peel(e)
-            if e[0] == 'agg' and e[1] == 'repeat':
-                return (0, int(e[2])) if str(e[2]).isdigit() else None
-            if e[0] == 'call' and (e[1].endswith("index") or e[1].endswith("index_mut")) and len(e[2]) == 2:
-                base = window(e[2][0])
-                rg = ir.peel(e[2][1])
-                if base is None or rg[0] != 'agg':
-                    return None
-                d = {str(k): cv(v) for k, v in rg[3]}
-                if rg[2].endswith("RangeTo"):
-                    return (base[0], base[0] + d.get("end")) if d.get("end") is not None else None
-                if rg[2].endswith("RangeFrom"):
-                    return (base[0] + d.get("start"), base[1]) if d.get("start") is not None else None
-                if rg[2].endswith("Range"):
-                    return (base[0] + d["start"], base[0] + d["end"]) if d.get("start") is not None and d.get("end") is not None else None
-                return None
-            if e[0] == 'field' and str(e[2]) in ('0', '1'):
-                sp = ir.peel(e[1])
-                if sp[0] == 'call' and (sp[1].endswith("split_at_mut") or sp[1].endswith("split_at")) and len(sp[2]) == 2:
-                    base = window(sp[2][0])
-                    mid = cv(sp[2][1])
-                    if base is not None and mid is not None:
-                        return (base[0], base[0] + mid) if str(e[2]) == '0' else (base[0] + mid, base[1])
-            return None
 
-        def byte0(e):
-            e = ir.peel(e)
-            if e[0] == 'index' and cv(e[2]) is not None:
-                w = window(e[1])
-                return w is not None and w[0] + cv(e[2]) == 0
-            return False
-        idx0 = band[0] == 'bin' and band[1] == 'BitAnd' and byte0(band[2]) and is_const(band[3], LONG)
-        bit_clear = (isinstance(lab, tuple) and lab[0] == 'otherwise') == (te[1] == 'Eq')
-        reads = [c for c in r.calls if c[0] == "std::io::Read::read_exact"]
-        ranges = [window(c[1][1]) for c in reads]
-        if zero and idx0 and bit_clear:
-            # short form
-            v2 = val
-            while (v2[0] == 'call' and ir.is_transparent(v2[1])) or (v2[0] == 'agg' and v2[2].endswith("VarInt::VarInt")):
-                v2 = ir.peel(v2[2][0]) if v2[0] == 'call' else ir.peel(v2[3][0][1])
-                if v2[0] == 'cast':
-                    v2 = ir.peel(v2[2])
-            short = (byte0(v2) and ranges == [(0, 1)])
-        elif zero and idx0 and not bit_clear:
-            clears = [w for w in r.writes if w[0][0] == 'index' and byte0(w[0])]
-            cl_ok = False
-            for (pl, vv, n, st) in clears:
-                x = ir.peel(vv)
-                if x[0] == 'bin' and x[1] == 'BitAnd' and ir.peel(x[3])[0] == 'un' and ir.peel(x[3])[1] == 'Not' and is_const(ir.peel(x[3])[2], LONG):
-                    cl_ok = True
-            be = val[0] == 'agg' and val[2].endswith("VarInt::VarInt") and ir.peel(val[3][0][1])[0] == 'call' and ir.peel(val[3][0][1])[1] == "core::num::from_be_bytes"
-            long_ = cl_ok and be and ranges == [(0, 1), (1, 4)]
-    if short and long_:
-        rep.ok("O4", "read/forms", "bit LONG_BIT of byte 0 clear => that byte; set => clear it with !LONG_BIT, read 3 more bytes, u32::from_be_bytes", b.loc())
-    else:
-        rep.violation("O4", "read/forms", "decoder does not implement {short: byte0 when byte0 & LONG_BIT == 0; long: from_be_bytes after clearing LONG_BIT} (short=%s long=%s)" % (short, long_), b.loc())
-    if io_calls == {"std::io::Read::read_exact"}:
-        rep.ok("O5", "read/read_exact-only", "the reader is accessed only through read_exact (first buf[..1], then buf[1..] of a 4-byte buffer)", b.loc())
-    else:
-        rep.violation("O5", "read/read_exact-only", "the reader is accessed through %s: a short read would be accepted silently" % sorted(io_calls), b.loc())
+def _sv(v):
+    import cells
+    if v[0] == 't':
+        return cells.show(v[1])
+    if v[0] == 'adt':
+        return "%s(%s)" % (v[2], ", ".join(_sv(x) for k, x in v[3].items() if isinstance(k, int)))
+    if v[0] == 'arr':
+        return "[%s]" % ", ".join(cells.show(t) for t in v[1])
+    return v[0]
 
-    # ---- O4 / O6: write ---------------------------------------------------------------------------------
-    b, rows = rows_of(facts, "protocol::varint::VarInt::write", inline=True)
-    forms = {}
-    o6 = True
-    n6 = 0
-    for r in rows:
-        if r.end != 'return' or r.ret is None:
-            continue
-        cs = [(ir.peel(e, casts=False), lab) for (e, lab) in nonconst_conds(r) if mentions_const(e, LONG)]
-        if len(cs) != 1:
-            forms['?'] = 'the short/long decision is not a single comparison with LONG_BIT (%d)' % len(cs)
-            continue
-        e, lab = cs[0]
-        truth = isinstance(lab, tuple) and (lab[0] == 'otherwise' or (lab[0] == 'case' and lab[1] != 0))
-        below = None
-        if e[0] == 'call' and e[1].endswith("::lt") and is_selfish(e[2][0]) and long_bit_threshold(e[2][1]):
-            below = truth
-        elif e[0] == 'call' and e[1].endswith("::ge") and is_selfish(e[2][0]) and long_bit_threshold(e[2][1]):
-            below = not truth
-        elif e[0] == 'bin' and e[1] == 'Lt' and is_selfish(e[2]) and long_bit_threshold(e[3]):
-            below = truth
-        elif e[0] == 'bin' and e[1] == 'Ge' and is_selfish(e[2]) and long_bit_threshold(e[3]):
-            below = not truth
-        wa = r.called("std::io::Write::write_all")
-        others = [c for c in r.calls if c[0].startswith("std::io::Write::") and c[0] != "std::io::Write::write_all"]
-        if below is None or len(wa) != 1 or others:
-            forms['?'] = ir.show(e)[:80]
-            continue
-        data = ir.peel(wa[0][1][1])
-        if below:
-            forms['short'] = (data[0] == 'agg' and data[1] == 'array' and len(data[3]) == 1 and ir.peel(data[3][0][1])[0] == 'field')
+
+def run_codec(rep, facts):
+    import cells
+    Cn = cells.C
+    lb = facts.const_int(LONG)
+    in0 = ('in', 0)
+    # ---- read ------------------------------------------------------------------------------------------------
+    b = facts.body("protocol::varint::VarInt::read")
+    ce = cells.Cells(facts, V)
+    try:
+        ends = ce.run(b, [('io', 'reader')])
+    except cells.Unsupported as e:
+        rep.undecidable("O4", "read/forms", "the decoder uses a construct the cell analysis does not cover: %s" % e, b.loc())
+        ends = None
+    if ends is not None:
+        test = ('eq', cells.mk_and(in0, Cn(lb)), Cn(0))
+        want = {
+            True: (1, ('adt', V, 'VarInt', ('t', cells.mk_zext(in0)))),
+            False: (4, ('adt', V, 'VarInt', ('t', ('frombe', (cells.mk_and(in0, Cn(~lb & 0xFF)), ('in', 1), ('in', 2), ('in', 3)))))),
+        }
+        seen = {}
+        bad = []
+        foreign = set()
+        for e in ends:
+            foreign |= {x[1] for x in e.io if x[0] == 'foreign'}
+            if e.ret[0] != 'adt' or e.ret[2] not in ('Ok', 'Err'):
+                bad.append("a path returns %s" % _sv(e.ret))
+                continue
+            if e.ret[2] == 'Err':
+                if "read_exact fails" not in e.trace:
+                    bad.append("an error is returned although every read_exact succeeded (conditions %s)" % [(c[0], cells.show(c[1]), c[3]) for c in e.conds])
+                continue
+            conds = set(e.conds)
+            if len(conds) != 1 or next(iter(conds))[:3] != test:
+                bad.append("the short/long decision is %s, expected the single test in[0] & LONG_BIT == 0" % [(c[0], cells.show(c[1]), cells.show(c[2]) if c[2] else None, c[3]) for c in e.conds])
+                continue
+            truth = next(iter(conds))[3]
+            nin, val = want[truth]
+            got = e.ret[3].get(0)
+            gotn = ('adt', got[1], got[2], got[3].get(0)) if got is not None and got[0] == 'adt' else got
+            form = "short" if truth else "long"
+            if e.nin != nin:
+                bad.append("the %s form consumes %d byte(s), expected %d" % (form, e.nin, nin))
+            elif gotn != val:
+                bad.append("the %s form yields %s, expected %s" % (form, _sv(got) if got else None, "VarInt(%s)" % cells.show(val[3][1])))
+            else:
+                seen[truth] = True
+        if not bad and set(seen) != {True, False}:
+            bad.append("only the %s form is implemented" % ("short" if True in seen else "long" if False in seen else "no"))
+        if bad:
+            rep.violation("O4", "read/forms", "; ".join(sorted(set(bad))), b.loc())
         else:
-            sets = [w for w in r.writes if w[0][0] == 'index' and cv(w[0][2]) == 0]
-            st_ok = any(ir.peel(vv)[0] == 'bin' and ir.peel(vv)[1] == 'BitOr' and is_const(ir.peel(vv)[3], LONG) for (pl, vv, n, st) in sets)
-            forms['long'] = (data[0] == 'call' and data[1] == "core::num::to_be_bytes" and st_ok)
-        # O6: returned Ok(len(X)) with X the very array written, combined with the write's result
-        ret = ir.peel(r.ret)
-        lens = [x for x in ir.walk(ret) if x[0] == 'call' and x[1].endswith("::len")]
-        was = [x for x in ir.walk(ret) if x[0] == 'call' and x[1] == "std::io::Write::write_all"]
-        if ret[0] == 'call' and ret[1] == "std::result::Result::and":
-            # write_all(w, X).and(Ok(X.len()))
-            n6 += 1
-            if not (lens and was and ir.peel(lens[0][2][0]) == ir.peel(was[0][2][1])):
-                o6 = False
-        elif ret[0] == 'agg' and ret[2].endswith("Result::Ok"):
-            # write_all(w, X)?; Ok(X.len())  — the Ok is reached only on the Continue edge of `?` on that very write
-            n6 += 1
-            cnt = ir.peel(ret[3][0][1])
-            same = cnt[0] == 'call' and cnt[1].endswith("::len") and ir.peel(cnt[2][0]) == data
-            guarded = False
-            for (e2, lab2) in nonconst_conds(r):
-                pe2 = ir.peel(e2)
-                if pe2[0] == 'discr' and any(x[0] == 'call' and x[1].endswith("Try>::branch") and any(
-                        y[0] == 'call' and y[1] == "std::io::Write::write_all" for y in ir.walk(x)) for x in ir.walk(pe2)):
-                    guarded = guarded or lab2 == ('case', 0)
-            if not (same and guarded):
-                o6 = False
+            rep.ok("O4", "read/forms", "on every path: in[0] & LONG_BIT == 0 => 1 byte read, VarInt(in[0]); otherwise 4 bytes read, "
+                   "VarInt(from_be_bytes[in[0] & !LONG_BIT, in[1], in[2], in[3]]); Err only when read_exact failed (%d paths)" % len(ends), b.loc())
+        if foreign:
+            rep.violation("O5", "read/read_exact-only", "the reader is accessed through %s: a short read would be accepted silently" % sorted(foreign), b.loc())
         else:
-            pass    # error propagation of the write itself: no count is reported
-    if forms == {'short': True, 'long': True}:
-        rep.ok("O4", "write/forms", "self < LONG_BIT => [self.0 as u8]; otherwise to_be_bytes(self.0) with LONG_BIT set in byte 0", b.loc())
+            rep.ok("O5", "read/read_exact-only", "the reader is accessed only through read_exact (%s)" % sorted({tuple(n for (k, n) in e.io) for e in ends}), b.loc())
+
+    # ---- write -----------------------------------------------------------------------------------------------
+    b = facts.body("protocol::varint::VarInt::write")
+    ce = cells.Cells(facts, V)
+    v = ('v',)
+    try:
+        ends = ce.run(b, [('adt', V, 'VarInt', {0: ('t', v), '0': ('t', v)}), ('io', 'writer')])
+    except cells.Unsupported as e:
+        rep.undecidable("O4", "write/forms", "the encoder uses a construct the cell analysis does not cover: %s" % e, b.loc())
+        return
+    test = ('lt', v, Cn(lb))
+    want = {
+        True: [cells.mk_lo8(v)],
+        False: [cells.mk_or(cells.mk_be(v, 0), Cn(lb)), cells.mk_be(v, 1), cells.mk_be(v, 2), cells.mk_be(v, 3)],
+    }
+    seen = {}
+    bad = []
+    bad6 = []
+    foreign = set()
+    for e in ends:
+        foreign |= {x[1] for x in e.io if x[0] == 'foreign'}
+        if e.ret[0] != 'adt' or e.ret[2] not in ('Ok', 'Err'):
+            bad.append("a path returns %s" % _sv(e.ret))
+            continue
+        conds = set(e.conds)
+        if e.ret[2] == 'Err':
+            if "write_all fails" not in e.trace:
+                bad6.append("an error is returned although every write_all succeeded")
+            continue
+        if "write_all fails" in e.trace:
+            bad6.append("a byte count is reported although write_all failed")
+            continue
+        if len(conds) != 1 or next(iter(conds))[:3] != test:
+            bad.append("the short/long decision is %s, expected the single test self.0 < LONG_BIT" % [(c[0], cells.show(c[1]), cells.show(c[2]) if c[2] else None, c[3]) for c in e.conds])
+            continue
+        truth = next(iter(conds))[3]
+        form = "short" if truth else "long"
+        if e.out != want[truth]:
+            bad.append("the %s form writes [%s], expected [%s]" % (form, ", ".join(cells.show(t) for t in e.out), ", ".join(cells.show(t) for t in want[truth])))
+        else:
+            seen[truth] = True
+        cnt = e.ret[3].get(0)
+        if not (cnt is not None and cnt[0] == 't' and cnt[1] == Cn(len(e.out))):
+            bad6.append("the %s form reports %s byte(s) after writing %d" % (form, _sv(cnt) if cnt else None, len(e.out)))
+    if foreign:
+        bad.append("the writer is accessed through %s" % sorted(foreign))
+    if not bad and set(seen) != {True, False}:
+        bad.append("only the %s form is implemented" % ("short" if True in seen else "long" if False in seen else "no"))
+    if bad:
+        rep.violation("O4", "write/forms", "; ".join(sorted(set(bad))), b.loc())
     else:
-        rep.violation("O4", "write/forms", "encoder forms are %s" % forms, b.loc())
-    if o6 and n6 == 2:
-        rep.ok("O6", "write/count", "Ok(X.len()) is returned only together with / after a successful write_all(w, X), same X, on both forms", b.loc())
+        rep.ok("O4", "write/forms", "self.0 < LONG_BIT => [self.0 as u8]; otherwise [be(self.0)[0] | LONG_BIT, be[1], be[2], be[3]], only through write_all (%d paths)" % len(ends), b.loc())
+    if bad6:
+        rep.violation("O6", "write/count", "; ".join(sorted(set(bad6))), b.loc())
+    elif not bad:
+        rep.ok("O6", "write/count", "Ok(n) is returned only after every write_all succeeded and n is the number of bytes handed to it, on both forms", b.loc())
     else:
-        rep.violation("O6", "write/count", "the reported count is not the length of the array that was written", b.loc())
+        rep.undecidable("O6", "write/count", "the encoder forms are not recognised (see O4)", b.loc())
 
 
 def main(rep, tier):
